@@ -22,7 +22,11 @@ def run(ctx):
         files = rng.sample(files, 1200)
     exts = [(".faa", "aa"), (".fna", "dna"), (".ffn", "dna"), (".frn", "rna"), (".txt", "aa"), (".fasta", "aa")]
     fitems = []
+    exotic = ["\x0c", "\x1c", "\x85", "\u2028", "\x0b", "\x1d"]
     for i, f in enumerate(files):
+        ch = exotic[i % len(exotic)]          # characters str.splitlines() breaks at but file iteration does not
+        f = {"lines": [x.replace("<FF>", ch) for x in f["lines"]],
+             "records": [{"name": r["name"].replace("<FF>", ch), "seq": r["seq"]} for r in f["records"]]}
         ext, typ = exts[i % len(exts)]
         # (a sequence line with a '>' in it is read as text by the reader but is not a code string: no Sequence from it)
         load = i % 5 == 0 and len(f["records"]) > 0 and typ == "aa" and not any(">" in x for r in f["records"] for x in r["seq"])
